@@ -427,3 +427,19 @@ def cpp_ser_facts(macro, cser: str, csup: str) -> typing.Tuple[typing.Dict[str, 
         if not m or not re.search(r'return\s+set[UI]xx\(', m.group(1)) or re.search(r'data_\[|memset|copyTo', m.group(1)):
             ok = False
     return evs, ok
+
+
+def cpp_getters_bytewise(csup: str) -> bool:
+    """const_bitspan::getU8..getU64 / getBit fetch bytes only through copyTo (byte-wise, saturated): no typed load through a cast
+    pointer, no direct data_ / aligned_ptr access (the model's footprint `rd_log` is the saturated fragment copyTo touches)"""
+    ok = True
+    for name in ('getU8', 'getU16', 'getU32', 'getU64'):
+        m = re.search(r'inline uint\d+_t const_bitspan::%s\([^)]*\) const noexcept\s*\{(.*?)\n\}' % name, csup, flags=re.S)
+        if not m:
+            raise Closed('const_bitspan::%s not found' % name)
+        body = re.sub(r'\{\{\s*assert\([^}]*\}\}', '', m.group(1))
+        if not re.search(r'saturateBufferFragmentBitLength\(', body) or not re.search(r'copyTo\(', body):
+            raise Closed('const_bitspan::%s: saturate + copyTo shape not recognised' % name)
+        if re.search(r'\*\s*reinterpret_cast|aligned_ptr\s*\(|data_\s*\[|data_\.data\(\)|memcpy|memmove', body):
+            ok = False
+    return ok
